@@ -11,6 +11,7 @@ RULE = ("games of classes G-TIE (acyclic exact ties through different float sums
         "G-LEX solved in both pruning modes; expected set = arg-max / arg-min over the exact rational values; a state is in scope "
         "only if every pair of its successors is exactly tied or separated by more than 2*delta*T+2e-6.  Non-trivial: the game has an "
         "in-scope player state with an exact tie of >= 2 optimal actions or a Player-2 state with >= 2 actions; distinct = game hash.")
+RULE += (' Also (rounds 5-6): G-GAP/G-GAPLOOP (values 1e-9..1e-4 apart around the 6-digit resolution), G-CORR, G-BIGR, G-DIGIT (digit-only / ambiguous action names), G-RETRY (cycles through state 0), G-FINREP (final states listed repeatedly, as list or tuple); a seventh of the solves pass the pruning flag as the int 1/0; an eighth of the batches each run with the root logger at DEBUG, under python -O, and with warnings raised on behalf of the repository turned into errors. THREADS class: the real code called from 3-4 threads of one interpreter (1 us switch interval, yield injection at every ~1000-3000th executed line), each concurrent outcome compared with the sequential outcome of the same process.')
 FLOOR = 300
 REQUIRED = ["solve.ok"]
 ASSUMPTIONS = ["separation precondition 2*delta*T + 2e-6 (two convergence errors + one rounding cell each); states in between are skipped and counted",
